@@ -214,7 +214,8 @@ theorem chunk_eq_iff (c d : Chunk) (s : List Char) :
 /-! ## all operation trees -/
 
 /-- For every operation tree of the modelled fragment (`e.ty = some τ`: constructor, `+`, `+=`,
-reflected `+` with str / list / tuple, `join`, `[i]`, `[i:j]`, `fixed_len`, `list(x)` over strings,
+reflected `+` with str / list / tuple, `join` (also `sep.join(text)`: one item per character, whatever the
+chunks are), `[i]`, `[i:j]`, `fixed_len`, `list(x)` over strings,
 chunks, texts, nested lists and tuples, to any depth): either the model evaluates it to a value of type `τ`
 in which every text satisfies the invariant and which shows exactly the cells that the same
 operations give on plain sequences (`ref`), or both raise `IndexError`; never anything else. -/
